@@ -94,7 +94,7 @@ class C01(Prop):
     def default_policies(self, tier, seed):
         if tier == "quick":
             return ["natural@int", "natural@str", "1@int", "2@str", "s%d@int" % seed]
-        return ["natural@int", "natural@str"] + ["%d@%s" % (i, "int" if i % 2 else "str") for i in range(1, 13)] + \
+        return ["natural@int", "natural@str"] + ["%d@%s" % (i, "int" if i % 2 else "str") for i in range(1, 7)] + \
                ["s%d@int" % (seed * 7 + 1), "s%d@str" % (seed * 7 + 2)]
 
     def reference(self, case):
